@@ -18,7 +18,11 @@ forward_euler, forward_explicit_euler; the two enum members also through get_cod
 alias, point, dt) with dt in {0, 1e-12, 1, -3, 1e6}: the step must equal states + dt*rhs(t, states, parameters) computed with
 the rhs of the same module (rtol 1e-9 of |states|+|dt*rhs|), must return the input states bit-for-bit when dt = 0, and must leave
 the states/parameters arrays unmodified.  Models whose plain rhs cannot be generated / compiled / run on a back end, and points where the C / jax rhs is not
-reproducible or differs from the NumPy rhs, are skipped (that belongs to C01/C02/C03).  Non-trivial: rhs not identically zero at the point and dt != 0; distinct by sha1(text, back end, alias, point, dt)."""
+reproducible or differs from the NumPy rhs, are skipped (that belongs to C01/C02/C03).  The same checks are ALSO made on a module generated with remove_unused=True (dt in {0, 1, -3}), there BY NAME: entry state_index(X) (the module's own
+index function) of the step must be X + dt * dX with dX = entry state_index(X) of the rhs of the plain module of that back end (signatures
+end in :remove_unused).  A third of the models have the shape "derivatives independent of each other + unused intermediates that mention states /
+parameters in various orders", a fifth has intermediates that mention a d<state>_dt name.  Value tolerance: rtol 1e-9 plus atol 1e-12 x (1 +
+magnitude).  Non-trivial: rhs not identically zero at the point and dt != 0; distinct by sha1(text, back end, alias, point, dt, variant)."""
 USES_SHRINK = True
 CASE_TIMEOUT = 60
 
@@ -28,7 +32,7 @@ def cases(tier, seed, focus):
     for i in range(n):
         k = seed * 100003 + i
         bes = ["numpy", "c"] + (["jax"] if i % (5 if tier == "quick" else 3) == 0 else [])
-        yield {"mseed": k, "opts": {"force": list(mg.feature_cycle(k))}, "npts": 2, "backends": bes, "tags": ["C05"]}
+        yield {"mseed": k, "opts": {"force": list(mg.feature_cycle(k)), "indep": 0.35, "deriv_ref": 0.2}, "npts": 2, "backends": bes, "tags": ["C05"]}
 
 
 def check(case):
@@ -66,58 +70,85 @@ def check(case):
         except be.Stage as e:
             cm.note(res, f"skipped:{bk}:plain-module-{e.stage}-fails")
             continue
-        try:
-            mod = be.build(ode, bk, ["explicit_euler", "forward_explicit_euler"], aliases=[a for a in aliases if a not in ("explicit_euler", "forward_explicit_euler")])
-        except be.Stage as e:
-            res["evals"] += 1
-            add(e.kind, f"{bk} module with explicit Euler cannot be built although the plain module can", {"ode": text}, "module", cm.exc_name(e.exc), str(e))
-            continue
-        with mod:
-            for pt in c["points"]:
-                pt = cm.restrict_point(pt, ref)
+        variants = c.get("variants", ["", ":remove_unused"])
+        for suffix in variants:
+            ru = {"remove_unused": True} if suffix else {}
+            try:
+                mod = be.build(ode, bk, ["explicit_euler", "forward_explicit_euler"], aliases=[a for a in aliases if a not in ("explicit_euler", "forward_explicit_euler")], **ru)
+            except be.Stage as e:
+                if suffix:
+                    cm.note(res, f"skipped:{bk}:remove_unused-module-{e.stage}-fails(C12)")
+                    continue
+                res["evals"] += 1
+                add(e.kind, f"{bk} module with explicit Euler cannot be built although the plain module can", {"ode": text}, "module", cm.exc_name(e.exc), str(e))
+                break
+            with mod:
+                check_module(mod, bk, suffix, c, ref, text, aliases, [d for d in dts if d in (0.0, 1.0, -3.0)] or dts[:1] if suffix and "dts" not in c else dts, npref, ode, res, add, shr)
+            if shr and res["failures"]:
+                break
+    return res
+
+
+def check_module(mod, bk, suffix, c, ref, text, aliases, dts, npref, ode, res, add, shr):
+    plain = None
+    try:
+        if suffix:
+            plain = be.build(ode, bk)
+        for pt in c["points"]:
+            pt = cm.restrict_point(pt, ref)
+            try:
+                s, p = mod.arrays(pt)
+                f = mod.raw("rhs", s, pt["t"], p)[: mod.n_states]
+                if plain is not None:  # by name: the derivative of X from the plain module, placed in the slot this module's state_index reports for X
+                    fp = plain.rhs(pt)
+                    f = np.array([fp[k] for k, _ in sorted(mod.state.items(), key=lambda kv: mod.index("state", kv[0]))], dtype=float)
+            except (be.Stage, KeyError):
+                cm.note(res, f"skipped:{bk}:rhs-call-fails")
+                continue
+            if not np.all(np.isfinite(f)):
+                continue
+            if bk != "numpy" or suffix:  # the rhs of this back end must be the model's rhs (deterministic, equal to NumPy's): otherwise C02/C03
                 try:
-                    s, p = mod.arrays(pt)
-                    f = mod.raw("rhs", s, pt["t"], p)[: mod.n_states]
-                except be.Stage as e:
-                    cm.note(res, f"skipped:{bk}:rhs-call-fails")
+                    base = plain if plain is not None else mod
+                    sb, pb = base.arrays(pt)
+                    again = base.raw("rhs", sb, pt["t"], pb)[: base.n_states]
+                    first = base.raw("rhs", sb, pt["t"], pb)[: base.n_states]
+                    npf = npref.rhs(pt) if npref is not None else None
+                except be.Stage:
+                    npf = None
+                if not np.array_equal(again, first) or npf is None or not all(cm.vclose(first[base.index("state", k)], v, 0.0) for k, v in npf.items()):
+                    cm.note(res, f"skipped:{bk}:rhs-differs-from-numpy(C02/C03)")
                     continue
-                if not np.all(np.isfinite(f)):
-                    continue
-                if bk != "numpy":  # the rhs of this back end must be the model's rhs (deterministic, equal to NumPy's): otherwise C02/C03
-                    try:
-                        again = mod.raw("rhs", s, pt["t"], p)[: mod.n_states]
-                        npf = npref.rhs(pt) if npref is not None else None
-                    except be.Stage:
-                        npf = None
-                    if not np.array_equal(again, f) or npf is None or not all(cm.close(f[mod.index("state", k)], v, 1e-9, 1e-12) for k, v in npf.items()):
-                        cm.note(res, f"skipped:{bk}:rhs-differs-from-numpy(C02/C03)")
+            for al in aliases:
+                for dt in dts:
+                    res["evals"] += 1
+                    inp = {"ode": text, "points": [pt], "aliases": [al], "dts": [dt], "variants": [suffix]}
+                    if np.any(f != 0) and dt != 0:
+                        res["nontrivial"].append(cm.sha([text, bk, al, pt, dt, suffix]))
+                    if not mod.has(al):
+                        add("alias-not-emitted" + suffix, f"no function named {al} in the module generated for get_scheme({al!r})", inp, al, None)
                         continue
-                for al in aliases:
-                    for dt in dts:
-                        res["evals"] += 1
-                        inp = {"ode": text, "points": [pt], "aliases": [al], "dts": [dt]}
-                        if np.any(f != 0) and dt != 0:
-                            res["nontrivial"].append(cm.sha([text, bk, al, pt, dt]))
-                        if not mod.has(al):
-                            add("alias-not-emitted", f"no function named {al} in the module generated for get_scheme({al!r})", inp, al, None)
-                            continue
-                        s1, p1 = s.copy(), p.copy()
-                        try:
-                            got = mod.raw(al, s1, pt["t"], p1, dt=dt)[: mod.n_states]
-                        except be.Stage as e:
-                            add(f"call-raises:{cm.exc_name(e.exc)}", f"{al} raises", inp, "values", cm.exc_name(e.exc), str(e))
-                            continue
-                        want = s + dt * f
-                        tol = 1e-9 * (np.abs(s) + np.abs(dt * f)) + 1e-300
-                        if got.shape != want.shape or not np.all(np.abs(got - want) <= tol):
-                            kind = "dt0-not-identity" if dt == 0 else "euler-mismatch"
-                            add(kind, f"{al}(dt={dt}) != states + dt*rhs", inp, cm.tolist(want), cm.tolist(got))
-                        elif dt == 0 and not np.array_equal(got, s):
-                            add("dt0-not-identity", f"{al}(dt=0) does not return the input states exactly", inp, cm.tolist(s), cm.tolist(got))
-                        if not (np.array_equal(s1, s) and np.array_equal(p1, p)):
-                            add("inputs-modified", f"{al} modifies its input arrays", inp, [cm.tolist(s), cm.tolist(p)], [cm.tolist(s1), cm.tolist(p1)])
-                    if shr and res["failures"]:
-                        break
+                    s1, p1 = s.copy(), p.copy()
+                    try:
+                        got = mod.raw(al, s1, pt["t"], p1, dt=dt)[: mod.n_states]
+                    except be.Stage as e:
+                        add(f"call-raises:{cm.exc_name(e.exc)}" + suffix, f"{al} raises", inp, "values", cm.exc_name(e.exc), str(e))
+                        continue
+                    want = s + dt * f
+                    tol = 1e-9 * (np.abs(s) + np.abs(dt * f)) + cm.ref_atol(0.0) * (1 + np.maximum(np.abs(s), np.abs(dt * f)))
+                    if got.shape != want.shape or not np.all(np.abs(got - want) <= tol):
+                        kind = "dt0-not-identity" if dt == 0 else "euler-mismatch"
+                        add(kind + suffix, f"{al}(dt={dt})" + (" of the module generated with remove_unused=True" if suffix else "") + " != states + dt*rhs" + (" (by name)" if suffix else ""), inp, cm.tolist(want), cm.tolist(got),
+                            f"state table {mod.state}" if suffix else "")
+                    elif dt == 0 and not np.array_equal(got, s):
+                        add("dt0-not-identity" + suffix, f"{al}(dt=0) does not return the input states exactly", inp, cm.tolist(s), cm.tolist(got))
+                    if not (np.array_equal(s1, s) and np.array_equal(p1, p)):
+                        add("inputs-modified" + suffix, f"{al} modifies its input arrays", inp, [cm.tolist(s), cm.tolist(p)], [cm.tolist(s1), cm.tolist(p1)])
+                if shr and res["failures"]:
+                    break
+    finally:
+        if plain is not None:
+            plain.close()
     return res
 
 
